@@ -7,10 +7,144 @@
 //! vkit::sim). The inner check's own verdict is ignored here; only what the
 //! validator says about the frames handed to TxToken::consume counts.
 
+use std::cell::RefCell;
+use std::collections::BTreeMap;
 use std::sync::OnceLock;
+use vkit::indep::validate::{validate_ip, FrameSummary, TxContext, Violation};
 use vkit::runner::{CaseFn, Fail, Part, Prop};
-use vkit::sim::{set_validate_tx, take_tx_chains, take_tx_violations};
+use vkit::sim::{set_lowpan_tx_hook, set_validate_tx, take_tx_chains, take_tx_violations};
 use vkit::{Ctx, Src};
+
+#[allow(dead_code)]
+#[path = "c20_lowpan.rs"]
+mod lowpan;
+use lowpan::{decode_dispatch, decode_mac, decompress, fill_udp_checksum, Ctxs, Ll, Lp};
+
+// ------------------------------------------------------------------ IEEE 802.15.4 contents
+//
+// The frame validator of vkit only knows the size rule for this medium. Here every
+// emitted frame is decoded with the independent 802.15.4 / RFC 4944 / RFC 6282 codec,
+// fragments are put back together, and the reconstructed IPv6 datagram goes through the
+// same `validate_ip` as on the other media (lengths, extension headers, checksums, source).
+
+struct Partial {
+    bytes: Vec<u8>,
+    have: Vec<bool>,
+    udp_fix: Option<usize>,
+}
+
+thread_local! {
+    /// fragmented datagrams under way, by (sender link-layer address, tag, datagram_size)
+    static PARTIAL: RefCell<BTreeMap<(Ll, u16, usize), Partial>> = const { RefCell::new(BTreeMap::new()) };
+}
+
+fn lv(key: &str, msg: String) -> Violation {
+    (format!("ieee802154:{}", key), msg)
+}
+
+/// IPHC header uses a context (CID, SAC or DAC set).
+fn uses_context(iphc: &[u8]) -> bool {
+    iphc.len() >= 2 && (iphc[1] & 0x80 != 0 || iphc[1] & 0x40 != 0 || iphc[1] & 0x04 != 0)
+}
+
+fn finish(cx: &TxContext, mut bytes: Vec<u8>, udp_fix: Option<usize>, frag: bool) -> Result<Option<FrameSummary>, Violation> {
+    if let Some(u) = udp_fix {
+        if u + 8 <= bytes.len() {
+            fill_udp_checksum(&mut bytes, u);
+        }
+    }
+    let mut s = validate_ip(cx, &bytes).map_err(|(k, m)| (format!("ieee802154:{}", k), format!("{} (datagram reconstructed from {} 6LoWPAN frame(s): {:02x?})", m, if frag { "several" } else { "one" }, &bytes[..bytes.len().min(80)])))?;
+    s.chain = format!("6lowpan{}/{}", if frag { "-frag" } else { "" }, s.chain);
+    s.len = bytes.len();
+    Ok(Some(s))
+}
+
+fn lowpan_hook(cx: &TxContext, frame: &[u8]) -> Result<Option<FrameSummary>, Violation> {
+    let (mac, hl) = decode_mac(frame).map_err(|e| lv("mac-header-undecodable", format!("{} in {:02x?}", e, &frame[..frame.len().min(32)])))?;
+    if mac.ftype != 1 {
+        return Err(lv("not-a-data-frame", format!("frame type {} emitted by the interface", mac.ftype)));
+    }
+    if mac.security || mac.reserved != 0 {
+        return Err(lv("mac-header-unexpected", format!("security / reserved bits set in a frame the interface built: {:?}", mac)));
+    }
+    if mac.src == Ll::None {
+        return Err(lv("mac-source-absent", "data frame without a source address".into()));
+    }
+    let payload = &frame[hl..];
+    let mut ctxs = Ctxs::default();
+    if let Some(list) = &cx.lowpan_ctxs {
+        for (i, c) in list.iter().enumerate().take(16) {
+            ctxs.0[i] = Some(*c);
+        }
+    }
+    let lp = decode_dispatch(payload).map_err(|e| lv("dispatch-unknown", format!("{} ({:02x?})", e, &payload[..payload.len().min(12)])))?;
+    match lp {
+        Lp::Iphc(p) => {
+            if uses_context(p) && cx.lowpan_ctxs.is_none() {
+                return Ok(None);
+            }
+            let d = decompress(p, mac.src, mac.dst, &ctxs).map_err(|e| lv("iphc-undecodable", format!("{} in {:02x?}", e, &p[..p.len().min(48)])))?;
+            let fix = if d.udp_csum_elided { d.udp_at.map(|u| 40 + u) } else { None };
+            finish(cx, d.build(None), fix, false)
+        }
+        Lp::Frag1 { size, tag, rest } => {
+            if uses_context(rest) && cx.lowpan_ctxs.is_none() {
+                return Ok(None);
+            }
+            let d = decompress(rest, mac.src, mac.dst, &ctxs).map_err(|e| lv("iphc-undecodable", format!("{} in FRAG1 {:02x?}", e, &rest[..rest.len().min(48)])))?;
+            let unc = d.uncompressed_len();
+            if unc > size {
+                return Err(lv("frag-beyond-datagram-size", format!("FRAG1 stands for {} uncompressed octets but datagram_size is {}", unc, size)));
+            }
+            if unc % 8 != 0 && unc != size {
+                return Err(lv("frag1-length-not-multiple-of-8", format!("FRAG1 (tag {}, datagram_size {}) stands for {} uncompressed octets", tag, size, unc)));
+            }
+            let b = d.build(Some(size));
+            let mut part = Partial { bytes: vec![0; size], have: vec![false; size], udp_fix: if d.udp_csum_elided { d.udp_at.map(|u| 40 + u) } else { None } };
+            part.bytes[..b.len()].copy_from_slice(&b);
+            for h in part.have[..b.len()].iter_mut() {
+                *h = true;
+            }
+            if part.have.iter().all(|h| *h) {
+                return finish(cx, part.bytes, part.udp_fix, true);
+            }
+            // a FRAG1 with the key of a datagram still under way replaces it (the interface
+            // abandoned the earlier one; whether it may is C20's / C09's question, not C10's)
+            PARTIAL.with(|m| m.borrow_mut().insert((mac.src, tag, size), part));
+            Ok(None)
+        }
+        Lp::FragN { size, tag, offset, rest } => {
+            if offset + rest.len() > size {
+                return Err(lv("frag-beyond-datagram-size", format!("FRAGN offset {} + {} octets exceeds datagram_size {}", offset, rest.len(), size)));
+            }
+            if rest.is_empty() {
+                return Err(lv("frag-empty", format!("FRAGN at offset {} carries no data", offset)));
+            }
+            if rest.len() % 8 != 0 && offset + rest.len() != size {
+                return Err(lv("fragn-length-not-multiple-of-8", format!("FRAGN at offset {} carries {} octets and is not the last fragment (datagram_size {})", offset, rest.len(), size)));
+            }
+            let key = (mac.src, tag, size);
+            let done = PARTIAL.with(|m| {
+                let mut m = m.borrow_mut();
+                // no FRAG1 on record (sent before validation started, or not judged): no verdict
+                let part = m.get_mut(&key)?;
+                for (i, x) in rest.iter().enumerate() {
+                    part.bytes[offset + i] = *x;
+                    part.have[offset + i] = true;
+                }
+                if part.have.iter().all(|h| *h) {
+                    m.remove(&key)
+                } else {
+                    None
+                }
+            });
+            match done {
+                Some(part) => finish(cx, part.bytes, part.udp_fix, true),
+                None => Ok(None),
+            }
+        }
+    }
+}
 
 fn scenarios() -> &'static Vec<(String, CaseFn)> {
     static T: OnceLock<Vec<(String, CaseFn)>> = OnceLock::new();
@@ -65,12 +199,15 @@ fn case(src: &mut Src, ctx: &mut Ctx) -> Result<(), Fail> {
     let (name, inner) = &table[which];
     ctx.note(|| format!("scenario {}", name));
     set_validate_tx(true);
+    PARTIAL.with(|m| m.borrow_mut().clear());
+    set_lowpan_tx_hook(Some(lowpan_hook));
     // the inner property's verdict is not ours to report
     let mut inner_ctx = Ctx::new(ctx.verbose, std::sync::Arc::new(vec!["*".to_string()]), false);
     let r = vkit::runner::guarded(|| inner(src, &mut inner_ctx));
     let violations = take_tx_violations();
     let chains = take_tx_chains();
     set_validate_tx(false);
+    set_lowpan_tx_hook(None);
     if ctx.verbose {
         for d in inner_ctx.desc.iter().take(300) {
             ctx.desc.push(d.clone());
@@ -109,11 +246,11 @@ pub fn prop() -> Prop {
         parts: vec![Part { name: "all_scenarios", case, quick: 60_000, thorough: 3_000_000 }],
         phases: vec![],
         smoltcp_panic_is_violation: true,
-        rule: "each case picks one case function of the other simulation-based checks (TCP worlds under faults, scripted TCP peers, datagram sockets, address-class table, IPv4 fragmentation, DHCP, DNS, neighbour discovery, poll_at scenarios, 6LoWPAN, frame fuzzing - whatever is built into this binary) and runs it with an independent strict validator attached to every simulated device: frame <= device MTU; Ethernet source = own MAC and known ethertype; ARP fields; IPv4 version/IHL/total length = frame payload/header checksum/fragment offsets and flags; IPv6 payload length, extension chain and TLV padding; ICMP checksums, unused fields, error size limits; NDISC hop limit 255, reserved fields and option units; MLD hop limit 1, router alert and record lengths; IGMP TTL and checksum; UDP length and checksum (never 0 over IPv6); TCP data offset, option list, ports, checksum; DHCP cookie and end option; DNS question section; IP source = an interface address at emission time (unspecified only for DHCP client, NS/RS and MLD), never broadcast/multicast (raw-socket protocols 253/254 exempt); non-trivial = at least one frame validated; distinct by digest of (scenario, protocol chains, frame count)",
+        rule: "each case picks one case function of the other simulation-based checks (TCP worlds under faults, scripted TCP peers, datagram sockets, address-class table, IPv4 fragmentation, DHCP, DNS, neighbour discovery, poll_at scenarios, 6LoWPAN, frame fuzzing - whatever is built into this binary) and runs it with an independent strict validator attached to every simulated device: frame <= device MTU; IEEE 802.15.4 data frame header, 6LoWPAN dispatch / IPHC / NHC / FRAG1 / FRAGN decodable, fragment sizes and offsets consistent, reconstructed datagram validated as below; Ethernet source = own MAC and known ethertype; ARP fields; IPv4 version/IHL/total length = frame payload/header checksum/fragment offsets and flags; IPv6 payload length, extension chain and TLV padding; ICMP checksums, unused fields, error size limits; NDISC hop limit 255, reserved fields and option units; MLD hop limit 1, router alert and record lengths; IGMP TTL and checksum; UDP length and checksum (never 0 over IPv6); TCP data offset, option list, ports, checksum; DHCP cookie and end option; DNS question section; IP source = an interface address at emission time (unspecified only for DHCP client, NS/RS and MLD), never broadcast/multicast (raw-socket protocols 253/254 exempt); non-trivial = at least one frame validated; distinct by digest of (scenario, protocol chains, frame count)",
         assumptions: vec![
             "independent decoders in vkit::indep (no smoltcp::wire code)",
             "own addresses are snapshotted at the start of each Node::poll; scenarios that poll the interface directly are validated without the source-ownership rule",
-            "802.15.4 frames are only size-checked here; their 6LoWPAN contents are decoded independently by the C20 check",
+            "802.15.4 frames are decoded with the independent 802.15.4 / RFC 4944 / RFC 6282 codec of vcheck/src/c20_lowpan.rs, fragments reassembled and the reconstructed IPv6 datagram validated like on the other media; frames compressed with a 6LoWPAN context are judged only when the scenario polls through Node::poll (contexts snapshotted), FRAGN frames without a FRAG1 on record are not judged",
             "the borrowed scenario's own verdict is ignored",
         ],
     }
